@@ -265,7 +265,7 @@ class C32(Prop):
 
     def _smaller(self, t, v):
         """sub-values with their types, then the same type with fewer elements"""
-        if v is None:
+        if v is None or v == hv.PDNA:
             return
         k = t[0]
         if k == 'interval':
